@@ -531,8 +531,41 @@ class Interp(ExprMixin):
             v.visit(s)
         return bool(v.result)
 
+    _MUTATORS = ("append", "extend", "add", "insert", "update", "setdefault", "pop", "remove", "clear", "discard")
+
+    def _mutated_names(self, stmts) -> List[str]:
+        """local names whose container is modified in place somewhere in the statements (X.append(..), X[k] = v, X += ..)"""
+        names = []
+        for s in stmts:
+            for n in ast.walk(s):
+                nm = None
+                if isinstance(n, ast.Call) and isinstance(n.func, ast.Attribute) and n.func.attr in self._MUTATORS \
+                        and isinstance(n.func.value, ast.Name):
+                    nm = n.func.value.id
+                elif isinstance(n, ast.Subscript) and isinstance(n.ctx, ast.Store) and isinstance(n.value, ast.Name):
+                    nm = n.value.id
+                elif isinstance(n, ast.AugAssign) and isinstance(n.target, ast.Name):
+                    nm = n.target.id
+                if nm is not None and nm not in names:
+                    names.append(nm)
+        return names
+
+    def grown_in_running_loop(self, v):
+        """(name, loop) when `v` is a container that existed before a loop that is still running and is modified in place in
+        its body: what python reads there is the state after the iterations so far, not the value the extractor holds"""
+        for obj, loop, name in getattr(self, "_growing", ()):
+            if obj is v and loop in self.loops:
+                return name, loop
+        return None
+
     def _run_loop(self, st, loop, it, target, pre_bind=None, extra_assigned=(), body_fn=None):
         env = self.frame.env
+        if not hasattr(self, "_growing"):
+            self._growing = []
+        n_growing = len(self._growing)
+        for nm in self._mutated_names(st.body):
+            if isinstance(env.get(nm), (PyList, PyDict)):
+                self._growing.append((env[nm], loop, nm))
         assigned = self._assigned_names(st.body)
         for n_ in extra_assigned:
             if n_ not in assigned:
@@ -566,6 +599,7 @@ class Interp(ExprMixin):
             self.loops = self.loops[:-1]
             self._loop_guard_base = self._loop_guard_base[:-1]
             del self.kills[nk:]
+            del self._growing[n_growing:]
         # `for e in xs: if not P(e): raise` - on every normal completion P holds for every element: an item collected in
         # this loop under the guard P(e) is collected unconditionally
         facts = []
@@ -748,7 +782,14 @@ class Interp(ExprMixin):
                 args.append(self.eval(a))
         for kw in node.keywords:
             if kw.arg is None:
-                v = self.to_term(self.eval(kw.value))
+                dv = self.eval(kw.value)
+                if isinstance(dv, PyDict) and dv.entries and all(is_const(k_) and isinstance(k_[1], str) and not lp_ and not gd_
+                                                                for (k_, _v, lp_, gd_) in dv.entries):
+                    # **{"a": x, "b": y} with the keys written in the source is a=x, b=y
+                    for (k_, v_, _lp, _gd) in dv.entries:
+                        kwargs.append((k_[1], v_))
+                    continue
+                v = self.to_term(dv)
                 kwargs.append(("**", v))
             else:
                 kwargs.append((kw.arg, self.eval(kw.value)))
@@ -830,7 +871,37 @@ class Interp(ExprMixin):
     OPERATOR_FUNCS = {"le": "<=", "lt": "<", "ge": ">=", "gt": ">", "eq": "==", "ne": "!=", "add": "+", "sub": "-", "mul": "*",
                       "floordiv": "//", "truediv": "/", "mod": "%", "and_": "&", "or_": "|"}
 
+    def _as_items(self, v, node):
+        """(value, loops, guards) triples of an iterable: its written items when they are known from the source, else one
+        symbolic element of a fresh loop over it"""
+        items = self._known_items(v)
+        if items is not None:
+            return [(val, tuple(loops), tuple(guards)) for val, loops, guards in items]
+        lp = self.new_loop("comp", v, node)
+        return [(("elem", lp), (lp,), ())]
+
     def call_ext(self, dotted, args, kwargs, node):
+        if dotted in ("itertools.chain.from_iterable", "chain.from_iterable") and len(args) == 1 and not kwargs \
+                and self._known_items(args[0]) is not None:
+            # the concatenation of the written sub-iterables: every element of every one of them, in order
+            out = PyList(base_loops=self.loops, base_guards=self.eff_guards())
+            for val, loops, guards in self._known_items(args[0]):
+                for v2, l2, g2 in self._as_items(val, node):
+                    out.items.append(Item(v2, tuple(loops) + l2, tuple(guards) + g2))
+            return out
+        if dotted in ("itertools.product", "product") and len(args) >= 2 and not kwargs:
+            # the tuples (a, b, ...) in nested-loop order, the first iterable varying slowest
+            combos = [((), (), ())]
+            for a in args:
+                nxt = []
+                for vals, loops, guards in combos:
+                    for v2, l2, g2 in self._as_items(a, node):
+                        nxt.append((vals + (self.to_term(v2),), loops + l2, guards + g2))
+                combos = nxt
+            out = PyList(base_loops=self.loops, base_guards=self.eff_guards())
+            for vals, loops, guards in combos:
+                out.items.append(Item(("tuple", vals), loops, guards))
+            return out
         if dotted.startswith("operator.") and not kwargs:
             fn = dotted.split(".", 1)[1]
             if fn in self.OPERATOR_FUNCS and len(args) == 2:
@@ -883,6 +954,8 @@ class Interp(ExprMixin):
                 return app("isinstance", args[0] if isinstance(args[0], PyList) else targs[0], K(tuple(names)))
         if b == "len" and len(args) == 1:
             a = args[0]
+            if isinstance(a, (PyList, PyDict)) and self.grown_in_running_loop(a) is not None:
+                return ("call", "len", (self.to_term(a),), ())
             if isinstance(a, PyList) and a.plain():
                 return K(len(a.items))
             if isinstance(a, PyDict) and all(not e[2] and not e[3] for e in a.entries):
@@ -909,6 +982,18 @@ class Interp(ExprMixin):
                     return K({"int": int, "float": float, "str": str, "bool": bool, "abs": abs}[b](targs[0][1]))
                 except Exception:
                     pass
+            if b in ("any", "all") and len(targs) == 1 and not tkw and targs[0][0] in ("list", "tuple") \
+                    and all(not (isinstance(i, tuple) and i and i[0] == "each") for i in targs[0][1]):
+                # over items known from the source: the conjunction / disjunction of their truth values
+                unit = b == "all"
+                acc = None
+                for i in targs[0][1]:
+                    if is_const(i) and isinstance(i[1], (bool, int, type(None), str)):
+                        if bool(i[1]) != unit:
+                            return K(not unit)
+                        continue
+                    acc = i if acc is None else app("and" if unit else "or", acc, i)
+                return K(unit) if acc is None else acc
             if b == "getattr" and len(args) in (2, 3) and not tkw:
                 nm = targs[1]
 
@@ -923,6 +1008,19 @@ class Interp(ExprMixin):
                     return None
                 if is_const(nm) and isinstance(nm[1], str):
                     return self.getattr(args[0], nm[1], node)
+                if not is_const(nm) and nm[0] != "phi":
+                    # a name that a guard in force restricts to written strings (`if name in ("a", "b"): getattr(o, name)`):
+                    # the conditional over those strings
+                    for g_ in list(self.guards) + list(self.kills):
+                        if is_app(g_, "in") and len(g_) == 4 and g_[2] == nm and isinstance(g_[3], tuple) and g_[3] \
+                                and g_[3][0] in ("tuple", "list") and g_[3][1] \
+                                and all(is_const(c_) and isinstance(c_[1], str) for c_ in g_[3][1]):
+                            consts = list(g_[3][1])
+                            chain_ = NONE        # (not reached: the guard says the name is one of them)
+                            for c_ in reversed(consts):
+                                chain_ = ("phi", app("==", nm, c_), c_, chain_)
+                            nm = chain_
+                            break
                 got = attr_of(nm)
                 if got is not None:
                     return got
@@ -1100,14 +1198,20 @@ class Interp(ExprMixin):
             try:
                 if isinstance(body, ast.expr):
                     return self.eval(body)
-                self.exec_block(body)
+                ended = self.exec_block(body)
                 result = NONE
             except _Return as r:
                 result = r.value
+                ended = "return"
             if fr.returns:
                 # residual returns: build a phi chain, the fall-through / final return is the default
+                rets = list(fr.returns)
+                if ended == "raise":
+                    # the body ends by raising on everything that is left: no fall-through value, the last residual return
+                    # is what the function returns on the paths that return at all
+                    result = rets.pop()[1]
                 res = self.to_term(result)
-                for guards, val in reversed(fr.returns):
+                for guards, val in reversed(rets):
                     res = ("phi", self._conj(guards) if guards else TRUE, self.to_term(val), res)
                 return res
             return result
@@ -1146,9 +1250,19 @@ class Interp(ExprMixin):
             r = ("mcall", recv, name, tuple(self.ref_term(a) for a in args), tuple((k, self.to_term(v)) for k, v in kwargs))
             self.event("mcall", {"recv": recv, "name": name, "args": r[3], "kwargs": r[4], "owner": owner.name}, node)
             return r
+        decorators = {ast.unparse(d) for d in fn.decorator_list}
+        if "staticmethod" in decorators:
+            # no receiver is passed: the parameters are the call's arguments
+            env, extra = self.bind_params(fn, args, kwargs, node, skip_self=False)
+            fr = Frame(owner.module, qual, env, self_obj=None, cls=owner, static_cls=bm.static_cls or owner, call_site=self.site(node))
+            self._via.append(qual)
+            try:
+                return self.run_body(fr, fn.body)
+            finally:
+                self._via.pop()
         env, extra = self.bind_params(fn, args, kwargs, node, skip_self=True)
         selfname = fn.args.args[0].arg if fn.args.args else "self"
-        env[selfname] = recv
+        env[selfname] = ("class", owner.name) if "classmethod" in decorators else recv
         if name == "__init__":
             # explicit keyword arguments of a constructor chain become field values
             for k, v in extra:
